@@ -22,7 +22,7 @@ ASSUMPTIONS = ['clock tolerance (ops+4) ulp of the largest time; content toleran
                'descending bands negate the chirp term 2 pi((f-fch1)t + drift t^2/2), then add the user phase',
                'noise identity is a metamorphic relation against the same code under a different chunking']
 REQUIRED_CLASSES = ['kind=stream', 'kind=antenna1', 'kind=antenna2', 'noise=1', 'noise=2', 'chirp', 'custom_complex',
-                    'op=set_time', 'op=add_time', 'op=update_noise', 'op=reset_start', 'requests>=2', 'desc', 'asc', 'equal_size_after_get', 'equal_size_after_update_noise', 'equal_size_after_clock_change', 'custom_single_precision']
+                    'op=set_time', 'op=add_time', 'op=update_noise', 'op=reset_start', 'requests>=2', 'desc', 'asc', 'equal_size_after_get', 'equal_size_after_update_noise', 'equal_size_after_clock_change', 'custom_single_precision', 'asc_form=np.bool_', 'asc_form=int']
 
 RATES = [1e6, 3e9, 2.048e9, 187.5e6, 3.3e9]
 
@@ -57,7 +57,7 @@ def strategy(tier):
     return st.fixed_dictionaries({
         'kind': st.sampled_from(['stream', 'antenna1', 'antenna2']),
         'sr': st.sampled_from(RATES), 'fch1': st.sampled_from([0.0, 6e9, 1.42e9, 8.4e9 + 17.0]),
-        'ascending': st.booleans(), 't0': st.sampled_from([0.0, 0.0, 1e-3, 17.25, 1e4]),
+        'ascending': st.booleans(), 'asc_form': st.sampled_from(['bool', 'bool', 'np.bool_', 'int']), 't0': st.sampled_from([0.0, 0.0, 1e-3, 17.25, 1e4]),
         'seed': st.integers(0, 2 ** 31 - 1),
         'src_x': source_list(), 'src_y': source_list(),
         'ops': st.lists(op, min_size=1, max_size=12),
@@ -105,12 +105,16 @@ def run_case(case, ctx):
     npol = {'stream': 1, 'antenna1': 1, 'antenna2': 2}[kind]
     src = [case['src_x'], case['src_y']][:npol]
 
+    # the orientation flag as a caller produces it: a Python bool, the numpy.bool_ of a comparison (foff > 0), or 0/1
+    asc_arg = {'bool': bool(asc), 'np.bool_': np.bool_(asc), 'int': int(asc)}[case.get('asc_form', 'bool')]
+    obs.cls('asc_form=' + case.get('asc_form', 'bool'))
+
     def build():
         if kind == 'stream':
-            top = DS.DataStream(sample_rate=sr, fch1=fch1, ascending=asc, t_start=t0, seed=seed)
+            top = DS.DataStream(sample_rate=sr, fch1=fch1, ascending=asc_arg, t_start=t0, seed=seed)
             streams = [top]
         else:
-            top = AN.Antenna(sample_rate=sr, fch1=fch1, ascending=asc, num_pols=npol, t_start=t0, seed=seed)
+            top = AN.Antenna(sample_rate=sr, fch1=fch1, ascending=asc_arg, num_pols=npol, t_start=t0, seed=seed)
             streams = [top.x] + ([top.y] if npol == 2 else [])
         return top, streams
 
